@@ -128,6 +128,16 @@ mut("C17-second-table-same-side", "C17", "side:opponent", (EV, "            (Kin
 mut("C17-add-in-both-loops", "C17", "material-tables-equal", (EV, "            score = score.saturating_sub(board.get_piece_count(kind) as i16 * value);", "            score = score.saturating_add(board.get_piece_count(kind) as i16 * value);"))
 mut("C17-tempo-bonus", "C17", "only", (EV, "        score\n    }", "        if board.current_turn == crate::board::piece::Color::White { score += 10; }\n        score\n    }"))
 
+# ---- C08
+mut("C08-moves-on-session-board", "C08", "load_position", (U, "            if let Ok(m) = board.find_move(notation.as_str()) {\n                board.make_move(m);", "            if let Ok(m) = self.board.find_move(notation.as_str()) {\n                self.board.make_move(m);"))
+mut("C08-break-on-bad-move", "C08", "unknown-move-refuses-command", (U, "            } else {\n                return Err(format!(\"Invalid move: {notation}\"));\n            }", "            } else {\n                self.elog(format!(\"Invalid move: {notation}\"));\n                break;\n            }"))
+mut("C08-find-by-prefix", "C08", "exact-equality", (B, "            .find(|m| m.to_notation() == notation)", "            .find(|m| m.to_notation().starts_with(notation))"))
+mut("C08-fen-moves-from-7", "C08", "fen-moves-from-8", (UC, "                Some(args[8..].iter().map(ToString::to_string).collect())", "                Some(args[7..].iter().map(ToString::to_string).collect())"))
+mut("C08-ucinewgame-noop", "C08", "UCINewGame", (U, "            UCICommand::UCINewGame => self.board = BoardBuilder::construct_starting_board().build(),", "            UCICommand::UCINewGame => {}"))
+mut("C08-knight-suffix-k", "C08", "promotion-suffix", ("src/board/ply.rs", "                Kind::Knight(_) => notation.push('n'),", "                Kind::Knight(_) => notation.push('k'),"))
+mut("C08-commit-inside-loop", "C08", "commit", (U, "            if let Ok(m) = board.find_move(notation.as_str()) {\n                board.make_move(m);", "            if let Ok(m) = board.find_move(notation.as_str()) {\n                board.make_move(m);\n                self.board = board.clone();"))
+mut("C08-fen-five-fields", "C08", "fen-is-args", (UC, "                    fen: args[1..7].join(\" \"),", "                    fen: args[1..6].join(\" \"),"))
+
 if __name__ == "__main__":
     missing = []
     for m in M:
